@@ -14,6 +14,7 @@
   exactly the plain operation, to which the refinement theorems of C09 / C10 apply.
 -/
 import QlibcModel.Seq.FaultHistory
+import QlibcModel.Seq.WalkRetry
 namespace Qlibc.Props.C15Seq
 open Qlibc Qlibc.Seq Qlibc.Seq.Spec
 
@@ -339,6 +340,30 @@ theorem vector_history_under_faults (nm : Bool) (max objsize options : Nat) (hos
   refine ⟨v, hv, hsub, e3, ?_, ?_⟩
   · rw [e1]; exact g2
   · rw [e2]; exact g1
+
+/-! ### walks under allocation failure: a failed getnext is retried with the same cursor
+
+  `walkF` (Seq/WalkRetry.lean): the i-th call of a walk with the caller's cursor runs under the
+  i-th plan — ANY plans; a call that reports ENOMEM is simply made again. The elements handed out
+  are a prefix of the contents (none skipped, none repeated), and all of them once the walk
+  reports its end. In particular the retry after a failure delivers the element that was due. -/
+
+theorem list_walk_retry (l : QList) (hwf : l.WF) (nm : Bool) (plans : List Plan) :
+    ∃ ds ended, l.walkF nm plans {} = .ok (ds, ended) ∧ ds <+: l.content ∧ (ended = true → ds = l.content) :=
+  QList.walkF_fresh l hwf nm plans
+
+/-- resumed at any position: a cursor that is zeroed (p = 0) or holds the copy of node p-1 -/
+theorem list_walk_retry_from (l : QList) (hwf : l.WF) (nm : Bool) (plans : List Plan) (c : QList.Cursor) (p : Nat)
+    (hat : l.AtPos c p) (hp : p ≤ l.elems.length) :
+    ∃ ds ended, l.walkF nm plans c = .ok (ds, ended) ∧ ds <+: l.content.drop p ∧
+      (ended = true → ds = l.content.drop p) :=
+  QList.walkF_spec l hwf nm plans c p hat hp
+
+theorem vector_walk_retry (v : Vec) (hwf : v.WF) (hn : v.num < 2147483648) (nm : Bool) (plans : List Plan)
+    (p : Nat) (hp : p ≤ v.num) :
+    ∃ ds ended, v.walkF nm plans { index := (p : Int) } = .ok (ds, ended) ∧ ds <+: v.live.drop p ∧
+      (ended = true → ds = v.live.drop p) :=
+  Vec.walkF_spec v hwf hn nm plans p hp
 
 /-! ### nothing is leaked by a failure -/
 
